@@ -90,12 +90,32 @@ class Checker(object):
         self.rep = rep
         self.rng = random.Random(rep.seed * 32452843 + rep.shard)
         self.sb = J.ShrinkBudget(rep, 30)
+        self.reused = {}
+        self.keep_env = None
 
     def apply(self, proc, f, env):
         from pysmt import rewritings as RW
         from pysmt.solvers.qelim import (ShannonQuantifierEliminator,
                                          SelfSubstitutionQuantifierEliminator)
         mgr = env.formula_manager
+        if proc.endswith('.reused'):
+            # one converter object for all the formulas of an environment
+            key = (id(env), proc)
+            conv = self.reused.get(key)
+            if conv is None:
+                self.reused.clear()
+                self.keep_env = env
+                conv = {'prenex.reused': RW.PrenexNormalizer,
+                        'nnf.reused': RW.NNFizer, 'aig.reused': RW.AIGer,
+                        'times_distributor.reused': RW.TimesDistributor}[
+                    proc](env)
+                self.reused[key] = conv
+            self.rep.count('reused_converter_calls')
+            if proc == 'prenex.reused':
+                return conv.normalize(f)
+            if proc == 'times_distributor.reused':
+                return conv.walk(f)
+            return conv.convert(f)
         if proc == 'nnf':
             return RW.nnf(f, env)
         if proc == 'prenex':
@@ -124,6 +144,8 @@ class Checker(object):
         raise ValueError(proc)
 
     SHAPES = {'nnf': shape_nnf, 'prenex': shape_prenex, 'aig': shape_aig,
+              'nnf.reused': shape_nnf, 'prenex.reused': shape_prenex,
+              'aig.reused': shape_aig,
               'qelim_shannon': shape_qf, 'qelim_selfsub': shape_qf,
               'factory_qelim_shannon': shape_qf,
               'factory_qelim_selfsub': shape_qf}
@@ -139,9 +161,11 @@ class Checker(object):
             return 'build', repr(e)
         fb = canon(B.describe(f))
         tm = {}
-        if proc != 'times_distributor' and B.typeof(fb, tm) != B.BOOL:
+        if not proc.startswith('times_distributor') and \
+                B.typeof(fb, tm) != B.BOOL:
             return 'build', 'outside fragment (not Boolean)'
-        if proc == 'prenex' and not quantifiers_in_bool_positions(fb, tm):
+        if proc.startswith('prenex') and \
+                not quantifiers_in_bool_positions(fb, tm):
             return 'build', 'outside fragment'
         try:
             with warnings.catch_warnings():
@@ -197,6 +221,14 @@ class Checker(object):
         rep.violation(key, '%s: %s' % (kind, what), {
             'bp': B.to_json(m if m is not None else b), 'proc': proc,
             'kind': kind})
+
+
+def binder_bodies(b):
+    out = []
+    for s_ in B.subterms(b):
+        if s_[0] in ('forall', 'exists') and s_[2][0] not in out:
+            out.append(s_[2][0])
+    return out
 
 
 def bool_cfgs():
@@ -276,6 +308,26 @@ def special_bool():
             ('lt', None, (i0, i1)),)),
             ('forall', (('i1', B.INT),), (('le', None, (i0, i1)),)))),
     ]
+    # directly nested binders, of the same kind and alternating, whose
+    # body mentions every variable (and the same bodies under other
+    # prefixes)
+    body = ('or', None, (('and', None, (p, q)), ('iff', None, (q, r_)), le))
+    ib = ('lt', None, (i0, ('plus', None, (i1, B.Int(1)))))
+    for kinds in (('exists', 'exists'), ('forall', 'forall'),
+                  ('exists', 'forall'), ('forall', 'exists'),
+                  ('exists', 'exists', 'exists'),
+                  ('forall', 'exists', 'exists'),
+                  ('exists', 'exists', 'forall')):
+        for (vs, bd) in ((((('p0', B.BOOL)), ('p1', B.BOOL), ('p2', B.BOOL)),
+                          body),
+                         ((('i0', B.INT), ('i1', B.INT), ('p0', B.BOOL)),
+                          ('and', None, (ib, p)))):
+            f = bd
+            for kname, v in zip(reversed(kinds), reversed(vs[:len(kinds)])):
+                f = (kname, (v,), (f,))
+            out.append(f)
+            out.append(('and', None, (r_, f)))
+            out.append(N(f))
     return out
 
 
@@ -443,6 +495,12 @@ def run(rep):
                 if want(proc):
                     ck.check(proc, b, j)
                     j += 1
+        for b in special_bool():
+            for proc in ('nnf.reused', 'prenex.reused', 'aig.reused'):
+                for x in [b] + binder_bodies(b):
+                    if want(proc):
+                        ck.check(proc, x, j)
+                        j += 1
     n = 200 if quick else 30000
     cfgs = bool_cfgs()
     rep.share(0.45)
@@ -459,13 +517,22 @@ def run(rep):
             if want(proc):
                 ck.check(proc, b, j)
                 j += 1
+        # the same through converter objects that live as long as the
+        # environment, followed by the bodies of the formula's binders
+        # (results memoised for the whole formula are asked for again)
+        for proc in ('nnf.reused', 'prenex.reused', 'aig.reused'):
+            for x in ([b] + binder_bodies(b)[:2]) if k % 2 == 0 else ():
+                if want(proc):
+                    ck.check(proc, x, j)
+                    j += 1
     rep.share(0.55)
     for b in sum_product_cases(rng, 100 if quick else 15000):
         if rep.out_of_time():
             break
-        if want('times_distributor'):
-            ck.check('times_distributor', b, j)
-            j += 1
+        for proc in ('times_distributor', 'times_distributor.reused'):
+            if want(proc):
+                ck.check(proc, b, j)
+                j += 1
     common.fresh_env()
     rep.share(0.7)
     if rep.shard == 0:
